@@ -106,6 +106,24 @@ func VerifC10Adjust() {
 		}
 		verifReach("shifted")
 	}
+	// two-interval clause: the timer is never armed further ahead than one back-off interval
+	// (change-arms-timer), so one interval after any instant it has expired; at the first
+	// adjustment after that, with all meters ready and some but not all servers rated as
+	// outliers, every outlier that carries traffic loses share — unless no other server can
+	// still grow (each good server's weight x4 exceeds the cap, or is zero).
+	canGrow := false
+	for i, s := range rb.servers {
+		canGrow = verifOr(canGrow, verifAnd(s.good, verifAnd(cur[i] > 0, cur[i]*FSMGrowFactor <= FSMMaxWeight)))
+	}
+	if verifAnd(verifAnd(allReady, timer0.Before(now)), verifAnd(verifAnd(anyBad, anyGood), canGrow)) {
+		verifAssert("persistent-outlier-triggers-adjustment", changed)
+		for i, s := range rb.servers {
+			if verifAnd(!s.good, cur[i] > 0) {
+				verifAssert("outlier-loses-share-unless-others-capped", int64(s.curWeight)*sum0 < cur[i]*sum1)
+			}
+		}
+		verifReach("outlier-lost-share")
+	}
 	verifAssert("lock-released", verifLocksHeld() <= 0)
 	verifReach("end")
 }
